@@ -81,6 +81,37 @@ def textOwn (enc : Enc) (text : Bytes) (ops : List TextOp) : Bytes :=
   let t := lastOr text (ops.filterMap fun | .setStr t => some t | _ => none)
   if t.isEmpty then [] else enc .html t
 
+/-- The operations of a script that apply to a token of the given kind. -/
+def opsText (ops : List TokenOp) : List TextOp := ops.filterMap fun | .textChunk o => some o | _ => none
+def opsStart (ops : List TokenOp) : List StartTagOp := ops.filterMap fun | .startTag o => some o | _ => none
+def opsEnd (ops : List TokenOp) : List EndTagOp := ops.filterMap fun | .endTag o => some o | _ => none
+def opsComment (ops : List TokenOp) : List CommentOp := ops.filterMap fun | .comment o => some o | _ => none
+def opsDoctype (ops : List TokenOp) : List DoctypeOp := ops.filterMap fun | .doctype o => some o | _ => none
+
+/-- Own bytes of any token after a script (start tag: see `C07_startTag_own_*`, `C07_attrs_*`). -/
+def ownBytes (enc : Enc) : Token → List TokenOp → Bytes
+  | .textChunk t, ops => textOwn enc t.text (opsText ops)
+  | .startTag t, ops => (t.applyOps (opsStart ops)).serializeSelf
+  | .endTag t, ops => endTagOwn t.raw (opsEnd ops)
+  | .comment t, ops => commentOwn t.raw (opsComment ops)
+  | .doctype t, _ => t.raw
+
+/-- Content operations of a script on any token. -/
+def contentOpsOf : Token → List TokenOp → List MutOp
+  | .textChunk _, ops => textMutOps (opsText ops)
+  | .startTag _, ops => startMutOps (opsStart ops)
+  | .endTag _, ops => endMutOps (opsEnd ops)
+  | .comment _, ops => commentMutOps (opsComment ops)
+  | .doctype _, ops => (opsDoctype ops).map fun _ => MutOp.remove
+
+/-- A token as the parser hands it to the handlers. -/
+def Token.fresh : Token → Prop
+  | .textChunk t => t.mutations = {}
+  | .startTag t => t.mutations = {}
+  | .endTag t => t.mutations = {} ∧ t.modified = false
+  | .comment t => t.mutations = {} ∧ t.modified = false
+  | .doctype t => t.removed = false
+
 /-! ### Attributes: what the documentation promises -/
 
 /-- Attribute operations of a start-tag script. -/
